@@ -6,6 +6,7 @@ import Model.C17.Merkle
 import Model.C17.Golomb
 import Model.C17.Bip158
 import Model.C17.CompactBlocks
+import Model.C17.Block
 import Generated.Pow
 open Btc
 
@@ -138,6 +139,32 @@ def handle : List String → String
         | .error e => s!"err {e.name}"
       | none => "bad-op"
     | _, _ => "bad-op"
+  | ["cb.key", header, nonce] =>
+    -- `CmpctBlock.short_id_key`: sha256(header ‖ nonce LE64), first two LE 64-bit words
+    match fromHex? header, nonce.toNat? with
+    | some hdr, some n =>
+      let d := sha256 (hdr ++ leBytes 8 n)
+      s!"ok {ofLE (d.take 8)} {ofLE ((d.drop 8).take 8)}"
+    | _, _ => "bad-op"
+  -- ---------------------------------------------------------------- block-level commitments, chain work
+  | ["blk.root", hf, headerRoot, txids] =>
+    match hashOf hf, fromHex? headerRoot, hexList? txids with
+    | some H, some hr, some ids =>
+      match Block.assertMerkleRoot (fun a b => H (a ++ b)) hr ids with
+      | .ok () => "ok"
+      | .error e => s!"err {e.name}"
+    | _, _, _ => "bad-op"
+  | ["blk.wc", hf, isSegwit, outs, witness, wtxids] =>
+    match hashOf hf, hexList? outs, hexList? witness, hexList? wtxids with
+    | some H, some os, some ws, some ids =>
+      match Block.assertWitnessCommitment H (isSegwit == "True") os ws ids with
+      | .ok () => "ok"
+      | .error e => s!"err {e.name}"
+    | _, _, _, _ => "bad-op"
+  | ["pow.chainwork", bs] =>
+    match hexList? bs with
+    | some bs => Gen.render (Block.chainWork bs)
+    | none => "bad-op"
   | _ => "bad-op"
 
 def main : IO Unit := runLoop handle
